@@ -2,9 +2,9 @@
 import os, re, subprocess
 import common
 
-LEAN_MODULES = ['OpusProps.C01']
+LEAN_MODULES = ['OpusProps.C01', 'OpusProps.EndToEndMs']
 GEN = ['CeltIdxConsts']
-SOURCES = ['src/opus_decoder.c', 'src/opus.c', 'src/opus_multistream_decoder.c', 'src/opus_projection_decoder.c',
+SOURCES = ['celt/celt_lpc.c', 'celt/pitch.c', 'celt/pitch.h', 'celt/mdct.c', 'src/opus_decoder.c', 'src/opus.c', 'src/opus_multistream_decoder.c', 'src/opus_projection_decoder.c',
            'src/opus_private.h', 'include/opus.h', 'celt/celt_decoder.c', 'celt/entdec.c', 'celt/stack_alloc.h',
            'silk/dec_API.c', 'silk/control.h', 'celt/celt.c', 'celt/celt.h']
 REQUIRED_THEOREMS = [
@@ -19,6 +19,8 @@ REQUIRED_THEOREMS = [
     'OpusProps.C01.celt_decode_mem_shift_in_bounds', 'OpusProps.C01.celt_postfilter_period_invariant',
     'OpusProps.C01.celt_synthesis_indices_in_bounds', 'OpusProps.C01.celt_deemphasis_indices_in_bounds',
     'OpusProps.C01.celt_prefilter_fold_indices_in_bounds', 'OpusProps.C01.celt_plc_indices_in_bounds',
+    'OpusProps.C01.msDecodeFull_duration', 'OpusProps.EndToEndMs.ms_encode_decode_duration',
+    'OpusProps.C01.celt_callee_contracts', 'OpusProps.C01.celt_callee_contracts_at_decoder_args',
 ]
 RULE = ('random call histories on one decoder state (decode of real-encoder packets of all modes/bandwidths/durations, '
         'bit-flipped / truncated / extended / random packets, synthetic framing of every code incl. self-delimited, NULL and '
@@ -55,11 +57,16 @@ TRUSTED = ['oracle contracts for silk_Decode / celt_decode_with_ec_dred / ec_dec
            'OpusModel/CeltIdxCalls.lean likewise (celt_decoder.c:277-369, :371-460, :491-541, :596-962; callee contracts from celt/mdct.c, '
            'celt/celt_lpc.c, celt/pitch.c, celt/bands.c): every call on an audio buffer is recorded inside the real decoder with pointers '
            'resolved to array+offset (ALLOC is recorded too) and compared; the inline loops of celt_decode_lost / deemphasis are a reading '
-           'only (deemphasis: the number of pcm samples written and the scratch size are observed)']
+           'only (deemphasis: the number of pcm samples written and the scratch size are observed)',
+           'OpusModel/CeltCallees.lean: loop-by-loop index models of celt_fir_c, celt_iir, _celt_autocorr (+ celt_pitch_xcorr_c, '
+           'xcorr_kernel_c, celt_inner_prod_c), _celt_lpc, pitch_downsample (+ celt_fir5) — hand transcription of celt/celt_lpc.c, '
+           'celt/pitch.c, celt/pitch.h (float / non-SMALL_FOOTPRINT paths); the compiled routines run under the sanitizer on blocks of '
+           'exactly the contract size (tie lines `contract`)']
 UNPROVED = ['CELT interior index bridge: the call lists and inline-loop extents of celt_decoder.c are proved in bounds under the '
-            'callee contracts (Call.accs) of clt_mdct_backward, denormalise_bands, comb_filter, celt_fir, celt_iir, _celt_autocorr, '
-            '_celt_lpc, pitch_downsample, pitch_search; those contracts are transcribed and validated by sanitizer probes on exact-size '
-            'blocks, not proved from the callee code; isTransient / LM / channel parameters are covered for all legal values, the oldBandE '
+            'callee contracts (Call.accs); those of comb_filter, celt_fir_c, celt_iir, _celt_autocorr, _celt_lpc and pitch_downsample are '
+            'discharged from index models of the C reference code (celt_callee_contracts; SIMD variants: sanitizer probes only), those of '
+            'clt_mdct_backward (FFT interior), denormalise_bands and pitch_search are transcribed and validated by sanitizer probes on '
+            'exact-size blocks, not proved from the callee code; isTransient / LM / channel parameters are covered for all legal values, the oldBandE '
             '/ oldLogE band-energy arrays only by the state layout theorem',
             'projection matrix multiply values (C10 proves matrix_short_saturates; here only its index ranges: msDecode_writes)',
             'int_ranges is a list of range lemmas for the expressions the C code forms, stated over the guaranteed operand ranges; '
@@ -83,7 +90,10 @@ LEVEL_TEXT = ('proof of the control skeleton, partial for the property: for ever
               'and gain every index the post-filter comb_filter calls and the decode_mem shift touch lies inside its channel buffer; likewise '
               'every access of celt_synthesis, deemphasis (all down-sampling factors), prefilter_and_fold and celt_decode_lost (pitch search, '
               'pitch-based concealment for every lag 100..720, noise-based concealment) lies inside its array, under the extent contracts of '
-              'the routines they call. The SILK/CELT synthesis interior and sample '
+              'the routines they call, of which celt_fir_c, celt_iir, _celt_autocorr, _celt_lpc and pitch_downsample are proved to keep '
+              'their contracts for all arguments within their preconditions; multistream duration: a validated packet of k <= frame_size '
+              'samples without FEC decodes to exactly k in every stream (msDecodeFull_duration), and composed with C10 the multistream '
+              'encoder skeleton output decodes to its frame size (EndToEndMs.ms_encode_decode_duration). The SILK/CELT synthesis interior and sample '
               'finiteness are not modelled (sanitizer-instrumented search only)')
 LEVEL_NOTE = ('trusted: Lean kernel; oracle contracts (monitored by the harness wrappers on every explored call); the '
               'correspondence harness (#include of src/opus_decoder.c with the DSP entry points renamed to recording wrappers) '
